@@ -17,6 +17,12 @@ def symbol_id(name):
     return 1000000000 + (zlib.crc32(name.encode()) % 1000000)
 
 
+def _cdiv(l, r):
+    """C division: truncation towards zero, exact for any size of operand."""
+    q = abs(l) // abs(r)
+    return q if (l < 0) == (r < 0) else -q
+
+
 def eval_in(store, x, fn=None, call_eval=None, depth=0):
     """Evaluate expression x to an int in `store`, or None."""
     if depth > 30 or not isinstance(x, dict):
@@ -122,13 +128,20 @@ def eval_in(store, x, fn=None, call_eval=None, depth=0):
         if l is None or r is None:
             return None
         try:
-            return {"+": lambda: l + r, "-": lambda: l - r, "*": lambda: l * r,
-                    "/": lambda: int(l / r), "%": lambda: l - int(l / r) * r,
-                    "<<": lambda: l << r, ">>": lambda: l >> r, "&": lambda: l & r, "|": lambda: l | r, "^": lambda: l ^ r,
-                    "<": lambda: int(l < r), "<=": lambda: int(l <= r), ">": lambda: int(l > r), ">=": lambda: int(l >= r),
-                    "==": lambda: int(l == r), "!=": lambda: int(l != r)}[op]()
+            v = {"+": lambda: l + r, "-": lambda: l - r, "*": lambda: l * r,
+                 "/": lambda: _cdiv(l, r), "%": lambda: l - _cdiv(l, r) * r,
+                 "<<": lambda: l << r, ">>": lambda: l >> r, "&": lambda: l & r, "|": lambda: l | r, "^": lambda: l ^ r,
+                 "<": lambda: int(l < r), "<=": lambda: int(l <= r), ">": lambda: int(l > r), ">=": lambda: int(l >= r),
+                 "==": lambda: int(l == r), "!=": lambda: int(l != r)}[op]()
         except Exception:
             return None
+        # the arithmetic is done in the type the compiler gave the expression: unsigned results wrap, signed ones are kept in range
+        w = x.get("w")
+        if w and op in ("+", "-", "*", "<<", "&", "|", "^") and isinstance(v, int):
+            v &= (1 << w) - 1
+            if x.get("s") and v >= (1 << (w - 1)):
+                v -= 1 << w
+        return v
     if k == "cond":
         c = eval_in(store, x["c"], fn, call_eval, depth + 1)
         if c is None:
@@ -180,10 +193,13 @@ class AbsWalk:
             if kind == "decl":
                 if t in self.tracked and n.get("init") is not None:
                     v = eval_in(store, self.cfg.resolve(n["init"]), self.fn, self.call_eval)
+                    cp = self._struct_copy(self.cfg.resolve(n["init"]), t, store) if v is None else None
                     for k in hit:
                         store.pop(k, None)
                     if v is not None:
                         store[t] = v
+                    elif cp:
+                        store.update(cp)
                     # aggregate initialisers: track fields
                     ini = strip_casts(self.cfg.resolve(n["init"]))
                     if isinstance(ini, dict) and ini.get("k") == "init":
@@ -194,10 +210,18 @@ class AbsWalk:
                 continue
             if n.get("k") == "bin" and n["op"] == "=" and t in self.tracked:
                 v = eval_in(store, n["r"], self.fn, self.call_eval)
+                cp = self._struct_copy(n["r"], t, store) if v is None else None
                 for k in hit:
                     store.pop(k, None)
                 if v is not None:
+                    bits = strip_casts(l).get("bits") if isinstance(strip_casts(l), dict) else None
+                    if bits:
+                        v &= (1 << bits) - 1
+                        if (strip_casts(l).get("t") or "").startswith(("int", "signed")) and v >= (1 << (bits - 1)):
+                            v -= 1 << bits
                     store[t] = v
+                elif cp:
+                    store.update(cp)
             elif n.get("k") == "bin" and t in self.tracked and t in store and n["op"] in ("+=", "-=", "|=", "&=", "<<=", ">>=", "^=", "*=", "/=", "%="):
                 r = eval_in(store, n["r"], self.fn, self.call_eval)
                 cur = store.pop(t)
@@ -205,7 +229,7 @@ class AbsWalk:
                     try:
                         val = {"+=": lambda: cur + r, "-=": lambda: cur - r, "|=": lambda: cur | r, "&=": lambda: cur & r,
                                "<<=": lambda: cur << r, ">>=": lambda: cur >> r, "^=": lambda: cur ^ r, "*=": lambda: cur * r,
-                               "/=": lambda: int(cur / r), "%=": lambda: cur - int(cur / r) * r}[n["op"]]()
+                               "/=": lambda: _cdiv(cur, r), "%=": lambda: cur - _cdiv(cur, r) * r}[n["op"]]()
                     except Exception:
                         val = None
                     if val is not None:
@@ -225,6 +249,21 @@ class AbsWalk:
             for k in [k for k in list(store) if k == t or k.startswith(t + ".") or k.startswith(t + "[")]:
                 if not k.startswith("$"):
                     store.pop(k, None)
+
+    @staticmethod
+    def _struct_copy(rhs, t, store):
+        """`t = s` for an aggregate s whose members are in the store: the members go along."""
+        r = strip_casts(rhs)
+        if not isinstance(r, dict) or r.get("k") not in ("ref", "mem", "idx"):
+            return None
+        src = lv(r)
+        if not src or src == t:
+            return None
+        out = {}
+        for k, v_ in store.items():
+            if k.startswith(src + ".") and not k.startswith("$"):
+                out[t + k[len(src):]] = v_
+        return out
 
     def _init_fields(self, base, ini, store):
         for name, val in ini["fs"]:
